@@ -68,23 +68,23 @@ def check_df(ck, repo, df):
                        all(o.kind == "raise" and o.exc.exc_type == "ValueError" for o in outs) and outs,
                        found=lambda: "; ".join("%s" % (o.kind if o.kind == "return" else o.exc.exc_type) for o in outs))
                 continue
-            ok1 = len(outs) == 1 and outs[0].kind == "return"
-            sck.ob("D1", df.qualname, "mode %s selects exactly one non-raising arm" % mode, df.loc(), ok1,
+            ok1 = bool(outs) and all(o.kind == "return" for o in outs)
+            sck.ob("D1", df.qualname, "mode %s is accepted (no path raises)" % mode, df.loc(), ok1,
                    found=lambda: "; ".join("%s" % (o.kind if o.kind == "return" else ("raise %s at %s" % (o.exc.exc_type, o.exc.where))) for o in outs))
             if not ok1:
                 continue
-            o = outs[0]
-            v = o.value
-            if not (isinstance(v, TupV) and len(v.items) == 2 and all(isinstance(i, Num) for i in v.items)):
-                sck.ob("D2", df.qualname, "returns a pair of numbers", df.loc(), False, found=repr(v)[:200])
-                continue
-            fake = _FakePM(repo, df, o)
-            for i in (0, 1):
-                P = "first_component_permeance" if i == 0 else "second_component_permeance"
-                want = oracle(fake, "%s.value * (%s - (%s))" % (P, PF_SRC % i, PP_SRC[mode][i]))
-                sck.ob("D2", df.qualname, "flux %d == permeance %d * (feed partial pressure - permeate partial pressure) [%s]" % (i + 1, i + 1, mode),
-                       df.loc(), v.items[i].r == want.r, expected=lambda: str(want.r), found=lambda: str(v.items[i].r), sample=True)
-            results[(mode, basis)] = (v.items[0].r, v.items[1].r, fake)
+            for o in outs:
+                v = o.value
+                if not (isinstance(v, TupV) and len(v.items) == 2 and all(isinstance(i, Num) for i in v.items)):
+                    sck.ob("D2", df.qualname, "returns a pair of numbers", df.loc(), False, found=repr(v)[:200])
+                    continue
+                fake = _FakePM(repo, df, o)
+                for i in (0, 1):
+                    P = "first_component_permeance" if i == 0 else "second_component_permeance"
+                    want = oracle(fake, "%s.value * (%s - (%s))" % (P, PF_SRC % i, PP_SRC[mode][i]))
+                    sck.ob("D2", df.qualname, "flux %d == permeance %d * (feed partial pressure - permeate partial pressure) [%s]" % (i + 1, i + 1, mode),
+                           df.loc(), v.items[i].r == want.r, expected=lambda: str(want.r), found=lambda: str(v.items[i].r), sample=True)
+                results[(mode, basis)] = (v.items[0].r, v.items[1].r, fake)
     ck.analysed["configs"] += cells
     ck.floor("driving-force mode cells", cells, 8)
     P1 = Rat.sym("first_component_permeance.value", ("nonneg",))
